@@ -4,6 +4,7 @@ import (
 	"fmt"
 	"go/token"
 	"go/types"
+	"sort"
 	"strings"
 
 	"golang.org/x/tools/go/ssa"
@@ -254,6 +255,7 @@ func checkC12(p *core.Program, r *core.Report) {
 	r.Rule("R2", "body fidelity: scanBody's reaction to '@' followed by '(', '@', a name character, end of input or anything else is evaluated per case: '@@' yields one '@' exactly when unescaping, '@'+other and a trailing '@' are copied verbatim, expression/identifier starts are pushed back; every other character is copied")
 	r.Rule("R3", "top-level gate and identifier fidelity: scanIdentifier returns IDENTIFIER only when the lower-cased first segment equals an allowed top level (or no list is given), and the text it returns (identifier or '@'+identifier) is the scanned text, never a case-folded copy")
 	r.Rule("R4", "quote/unquote pair: TextLiteral.String derives from strconv.Quote of the literal's full native value and VisitTextLiteral from strconv.Unquote")
+	r.Rule("R5", "literal text reaches a result only as the scanner's BODY token: a raw template string (a parameter that is handed to NewXScanner, directly or through another such function) is otherwise only trimmed, measured, compared or passed on — it never flows into a value, buffer or return of the evaluator, unless the use is guarded by the template containing no '@' at all")
 	r.Assumption("strconv.Quote/Unquote are inverse; the abstraction {quote, backslash, other} is exact for the scanner and the lexer rule because both only distinguish these classes inside a literal")
 
 	rtl := p.Method("excellent", "xscanner", "readTextLiteral")
@@ -454,6 +456,7 @@ func checkC12(p *core.Program, r *core.Report) {
 
 	// ------------------------------------------------------------------ R4
 	c11QuotePair(p, r, "R4")
+	c12RawTemplate(p, r)
 }
 
 // c11QuotePair: TextLiteral.String quotes the full native value; VisitTextLiteral unquotes. Shared by C11/R3 and C12/R4.
@@ -515,4 +518,146 @@ func quotesFaithfully(p *core.Program, fn *ssa.Function, depth int) (bool, strin
 		}
 	}
 	return len(core.Returns(fn)) > 0, ""
+}
+
+// c12RawTemplate: R5. The scanner is the only reader of raw template text in package excellent.
+func c12RawTemplate(p *core.Program, r *core.Report) {
+	var fns []*ssa.Function
+	for _, fn := range p.ModuleFunctions() {
+		if core.RelPkg(core.FuncPkgPath(fn)) == "excellent" && fn.Parent() == nil && !p.IsTestFile(fn.Pos()) {
+			fns = append(fns, fn)
+		}
+	}
+	// uses of v (through conversions, TrimSpace and phis): what each reaches
+	type use struct {
+		instr ssa.Instruction
+		what  string
+		arg   int
+		call  *ssa.CallCommon
+	}
+	passThrough := map[string]bool{"strings.TrimSpace": true, "strings.NewReader": true}
+	var usesOf func(v ssa.Value, seen map[ssa.Value]bool) []use
+	usesOf = func(v ssa.Value, seen map[ssa.Value]bool) []use {
+		var out []use
+		if seen[v] || v.Referrers() == nil {
+			return nil
+		}
+		seen[v] = true
+		for _, u := range *v.Referrers() {
+			switch x := u.(type) {
+			case *ssa.Phi, *ssa.ChangeType, *ssa.Convert, *ssa.MakeInterface, *ssa.ChangeInterface:
+				out = append(out, usesOf(x.(ssa.Value), seen)...)
+			case ssa.CallInstruction:
+				com := x.Common()
+				if bi, ok := com.Value.(*ssa.Builtin); ok && bi.Name() == "len" {
+					continue
+				}
+				o := core.CalleeObj(com)
+				name := ""
+				if o != nil {
+					name = core.ObjName(o)
+				}
+				if passThrough[name] {
+					if val, ok := x.(ssa.Value); ok {
+						out = append(out, usesOf(val, seen)...)
+					}
+					continue
+				}
+				for i, a := range com.Args {
+					if a == v {
+						out = append(out, use{x, name, i, com})
+					}
+				}
+			case *ssa.BinOp:
+				switch x.Op {
+				case token.EQL, token.NEQ:
+					continue
+				}
+				out = append(out, use{instr: x, what: "concatenation"})
+			case *ssa.DebugRef:
+			default:
+				out = append(out, use{instr: u, what: fmt.Sprintf("%T", u)})
+			}
+		}
+		return out
+	}
+	// raw template parameters: fixpoint from NewXScanner(strings.NewReader(param))
+	raw := map[*ssa.Parameter]bool{}
+	feedsScanner := func(u use) bool {
+		if u.what == "excellent.NewXScanner" {
+			return true
+		}
+		if u.call != nil {
+			if g := u.call.StaticCallee(); g != nil && u.arg < len(g.Params) && raw[g.Params[u.arg]] {
+				return true
+			}
+		}
+		return false
+	}
+	for changed := true; changed; {
+		changed = false
+		for _, fn := range fns {
+			for _, prm := range fn.Params {
+				if raw[prm] {
+					continue
+				}
+				if b, ok := prm.Type().Underlying().(*types.Basic); !ok || b.Kind() != types.String {
+					continue
+				}
+				for _, u := range usesOf(prm, map[ssa.Value]bool{}) {
+					if feedsScanner(u) {
+						raw[prm] = true
+						changed = true
+					}
+				}
+			}
+		}
+	}
+	noAt := func(b *ssa.BasicBlock) bool {
+		for _, ce := range core.ControllingConds(b) {
+			for v := range core.BackSlice(ce.Cond, nil) {
+				c, ok := v.(*ssa.Call)
+				if !ok {
+					continue
+				}
+				if o := core.CalleeObj(&c.Call); o != nil {
+					switch core.ObjName(o) {
+					case "strings.Contains", "strings.ContainsRune", "strings.IndexByte", "strings.Index", "strings.IndexRune", "strings.ContainsAny":
+						if s, ok := core.ConstString(c.Call.Args[1]); ok && s == "@" {
+							return true
+						}
+						if k, ok := core.ConstInt(c.Call.Args[1]); ok && k == '@' {
+							return true
+						}
+					}
+				}
+			}
+		}
+		return false
+	}
+	n := 0
+	var prms []*ssa.Parameter
+	for prm := range raw {
+		prms = append(prms, prm)
+	}
+	sort.Slice(prms, func(i, j int) bool { return prms[i].Pos() < prms[j].Pos() })
+	for _, prm := range prms {
+		n++
+		var bad []string
+		at := prm.Pos()
+		for _, u := range usesOf(prm, map[ssa.Value]bool{}) {
+			if feedsScanner(u) || noAt(u.instr.Block()) {
+				continue
+			}
+			what := u.what
+			if u.call != nil && what == "" {
+				what = "a dynamic call"
+			}
+			bad = append(bad, what+" at "+p.Pos(u.instr.Pos()))
+			at = u.instr.Pos()
+		}
+		r.Check(len(bad) == 0, "R5", core.FuncName(prm.Parent())+"/"+prm.Name()+"/only-scanned", p.Pos(at), "the raw template is only trimmed, measured, compared and scanned",
+			fmt.Sprintf("the raw template text of %s flows into %s without passing the scanner: '@@' is not unescaped there and the result differs from what Template produces for the same text", core.FuncName(prm.Parent()), strings.Join(bad, "; ")))
+	}
+	r.Require("raw_template_parameters", n, 3)
 }
